@@ -65,6 +65,19 @@ def getProblem (j : Json) : Except String Problem := do
     | _ => .error "!bad-arg:substance"
   pure { reactants := r, products := p, substances := s }
 
+/-- the call as made: `via` = "dict" | "factory" | "string" (+ `string_keys`), `reactants_set` / `products_set`;
+    returns the resolved problem (sides sorted when passed as sets, substances resolved) -/
+def getCall (j : Json) : Except String (Except Err Problem) := do
+  let p ← getProblem j
+  let arg ← match (← getStr j "via") with
+    | "dict" => pure SubstArg.mapping
+    | "factory" => pure SubstArg.factory
+    | "string" => do pure (SubstArg.keys (← getStrList j "string_keys"))
+    | _ => .error "!bad-arg:via"
+  match setupVia p.substances arg (← getBool j "reactants_set") (← getBool j "products_set") p.reactants p.products with
+  | .ok (q, _) => pure (.ok q)
+  | .error e => pure (.error e)
+
 def showRes : Except Err (List Entry) → String
   | .ok l => "ok " ++ showEntries l
   | .error e => showErr e
@@ -90,14 +103,20 @@ def h : Handler := fun op j =>
   match op with
   | "gate" => do pure (showRes (gate (← getMode j) (← getMat j "A") (← getCand j)))
   | "setup" => do
-      match setup (← getProblem j) with
-      | .ok A => pure ("ok " ++ showMat A)
+      match (← getCall j) with
       | .error e => pure (showErr e)
+      | .ok q =>
+        match setup q with
+        | .ok A => pure ("ok " ++ showMat A)
+        | .error e => pure (showErr e)
   | "balance" => do
       let c ← getCand j
-      match balanceCore (← getMode j) (fun _ => c) (← getProblem j) with
-      | .ok (r, p) => pure s!"ok {showDict r} {showDict p}"
+      match (← getCall j) with
       | .error e => pure (showErr e)
+      | .ok q =>
+        match balanceCore (← getMode j) (fun _ => c) q with
+        | .ok (r, p) => pure s!"ok {showDict r} {showDict p}"
+        | .error e => pure (showErr e)
   | "dup" => do
       let tab ← getTable j
       let mode ← getMode j
@@ -117,7 +136,10 @@ def h : Handler := fun op j =>
       pure (toString (minimalBySearch (← getMat j "A") (x.map Int.toNat)))
   | "balanced" => do pure (toString (isBalanced (← getMat j "A") (← getRatList j "x")))
   | "balanced_inst" => do
-      match setup (← getProblem j) with
+      match (← getCall j) with
+      | .error e => pure (showErr e)
+      | .ok q =>
+      match setup q with
       | .ok A =>
         let x ← getRatList j "x"
         if cols A != x.length then pure "ShapeError" else pure (toString (isBalanced A x))
